@@ -20,14 +20,10 @@ Lemma tie_go_num : gen_go_num N X Y XY XX YY m c == go_num S.
 Proof. unfold gen_go_num, go_num, N, X, Y, XY. ring. Qed.
 Lemma tie_go_den : gen_go_den N X Y XY XX YY m c == go_den S.
 Proof. unfold gen_go_den, go_den, N, X, XX. ring. Qed.
-Lemma tie_go_gain_div num den res tot : gen_go_gain_n num den res tot == num /\ gen_go_gain_d num den res tot == den /\ gen_go_gain_where = "mask"%string.
-Proof. unfold gen_go_gain_n, gen_go_gain_d. repeat split; try reflexivity. Qed.
-Lemma tie_go_offset : gen_go_offset_n N X Y XY XX YY m c == sY S - m * sX S /\ gen_go_offset_d N X Y XY XX YY m c == sN S /\ gen_go_offset_where = "mask"%string.
-Proof. unfold gen_go_offset_n, gen_go_offset_d, N, X, Y. repeat split; try reflexivity; ring. Qed.
-Lemma tie_go_regain : gen_go_regain_n N X Y XY XX YY m c == sY S - sN S * c /\ gen_go_regain_d N X Y XY XX YY m c == sX S /\
-  gen_go_regain_where = "r2_mask"%string /\ gen_fill_mask = "~r2_mask & mask"%string /\
-  gen_keep_atoms = ["mask"; "param_ra.array[0] > 0"; "param_ra.array[2] > self._r2_inpaint_thresh"]%string.
-Proof. unfold gen_go_regain_n, gen_go_regain_d, N, X, Y. repeat split; try reflexivity; ring. Qed.
+Lemma tie_go_offset : gen_go_offset_n N X Y XY XX YY m c == sY S - m * sX S /\ gen_go_offset_d N X Y XY XX YY m c == sN S.
+Proof. unfold gen_go_offset_n, gen_go_offset_d, N, X, Y. split; try reflexivity; ring. Qed.
+Lemma tie_go_regain : gen_go_regain_n N X Y XY XX YY m c == sY S - sN S * c /\ gen_go_regain_d N X Y XY XX YY m c == sX S.
+Proof. unfold gen_go_regain_n, gen_go_regain_d, N, X, Y. split; try reflexivity; ring. Qed.
 
 (* _r2_array *)
 Lemma tie_ss_tot : gen_ss_tot N X Y XY XX YY m c == tss_n S.
@@ -37,34 +33,46 @@ Proof. unfold gen_ss_res_go, rss_go, N, X, Y, XY, XX, YY. ring. Qed.
 Lemma tie_ss_res_g : gen_ss_res_g N X Y XY XX YY m c == rss_g S m.
 Proof. unfold gen_ss_res_g, rss_g, XY, XX, YY. ring. Qed.
 (* R2 = 1 - (res * N) / tot : the shape of Fit.r2_of *)
-Lemma tie_r2 res tot d : gen_ss_res_scale N X Y XY XX YY m c == sN S /\ gen_r2_n res res res tot == res /\ gen_r2_d res res res tot == tot /\ gen_r2_final d == 1 - d.
-Proof. unfold gen_ss_res_scale, gen_r2_n, gen_r2_d, gen_r2_final, N. repeat split; reflexivity. Qed.
+Lemma tie_r2 d : gen_ss_res_scale N X Y XY XX YY m c == sN S /\ gen_r2_final d == 1 - d.
+Proof. unfold gen_ss_res_scale, gen_r2_final, N. split; reflexivity. Qed.
 
 (* _fit_gain *)
 Lemma tie_g_gain : gen_g_gain_n N X Y XY XX YY m c == sY S /\ gen_g_gain_d N X Y XY XX YY m c == sX S.
 Proof. unfold gen_g_gain_n, gen_g_gain_d, X, Y. split; reflexivity. Qed.
 End KernelTie.
 
-(* _fit_gain_blk_offset: source normalised as x * na + nb (Fit.norm_blk); offset = (gain of the normalised fit) * nb, computed before the
-   gain is multiplied by na (Fit.gbo_params) *)
-Lemma tie_gbo x na nb m : gen_gbo_norm x na nb m == x * na + nb /\ gen_gbo_offset x na nb m == m * nb /\ gen_gbo_gain_factor x na nb m == na /\
-  gen_gbo_offset_before_gain = true.
-Proof. unfold gen_gbo_norm, gen_gbo_offset, gen_gbo_gain_factor. repeat split; try reflexivity; ring. Qed.
+(* the guards: which pixels each division / in-painting step touches, as boolean functions of the atoms
+   joint (the joint mask), r2gt (R2 > threshold), mpos (gain > 0).  Fit.go_keep is r2gt && mpos on jointly valid pixels. *)
+Lemma tie_guards r2gt mpos joint :
+  gen_go_gain_where r2gt mpos joint = joint /\ gen_go_offset_where r2gt mpos joint = joint /\ gen_g_gain_where r2gt mpos joint = joint /\
+  gen_r2_where r2gt mpos joint = joint /\ gen_go_remask r2gt mpos joint = joint /\
+  gen_go_keep r2gt mpos joint = (joint && (r2gt && mpos)) /\
+  gen_go_regain_where r2gt mpos joint = (joint && negb (r2gt && mpos)).
+Proof. destruct r2gt, mpos, joint; repeat split; reflexivity. Qed.
+Lemma tie_structure :
+  gen_go_guards_ok = true /\ gen_go_zeroing_ok = true /\ gen_g_offset_zero_ok = true /\ gen_g_zeroing_ok = true /\ gen_r2_roles_ok = true /\
+  gen_gbo_order_ok = true /\ gen_box_filters_ok = true.
+Proof. repeat split; reflexivity. Qed.
+
+(* _fit_gain_blk_offset: source normalised as x * na + nb (Fit.norm_blk); final parameters (gain of the normalised fit) * na and * nb, i.e. the
+   offset is computed from the un-rescaled gain (Fit.gbo_params) *)
+Lemma tie_gbo x na nb m : gen_gbo_norm x na nb m == x * na + nb /\ gen_gbo_gain x na nb m == m * na /\ gen_gbo_offset x na nb m == m * nb.
+Proof. unfold gen_gbo_norm, gen_gbo_gain, gen_gbo_offset. repeat split; try reflexivity; ring. Qed.
 (* apply: corrected = gain * source + offset (Fit.apply_px) *)
 Lemma tie_apply m c x : gen_apply m c x == m * x + c.
 Proof. unfold gen_apply. ring. Qed.
 
-(* compare.get_band_stats (Stats.Compare.band_stats works with the squares: r2 = num^2 / (a * b), rmse^2, rrmse^2) *)
-Lemma tie_compare (S : csums) mx my rmse :
+(* compare.get_band_stats, resolved to the accumulated sums (Stats.Compare.band_stats works with the squares: r2 = num^2 / (a * b), rmse^2, rrmse^2) *)
+Lemma tie_compare (S : csums) :
   let N := cN S in let X := cX S in let Y := cY S in let XY := cXY S in let XX := cXX S in let YY := cYY S in let RR := cRes S in
-  gen_cmp_src_mean N X Y XY XX YY RR mx my rmse == cX S / cN S /\ gen_cmp_ref_mean N X Y XY XX YY RR mx my rmse == cY S / cN S /\
-  gen_cmp_pcc_num N X Y XY XX YY RR mx my rmse == cXY S - cN S * mx * my /\
-  gen_cmp_pcc_den_a N X Y XY XX YY RR mx my rmse == cXX S - cN S * (mx * mx) /\
-  gen_cmp_pcc_den_b N X Y XY XX YY RR mx my rmse == cYY S - cN S * (my * my) /\
-  gen_cmp_rmse_sq N X Y XY XX YY RR mx my rmse == cRes S / cN S /\
-  gen_cmp_rrmse N X Y XY XX YY RR mx my rmse == rmse / my /\ gen_cmp_returns_ok = true.
+  let mx := cX S / cN S in let my := cY S / cN S in
+  gen_cmp_pcc_num N X Y XY XX YY RR == cXY S - cN S * mx * my /\
+  gen_cmp_pcc_den_a N X Y XY XX YY RR == cXX S - cN S * (mx * mx) /\
+  gen_cmp_pcc_den_b N X Y XY XX YY RR == cYY S - cN S * (my * my) /\
+  gen_cmp_rmse_sq N X Y XY XX YY RR == cRes S / cN S /\
+  gen_cmp_rrmse_den N X Y XY XX YY RR == my /\ gen_cmp_returns_ok = true.
 Proof.
-  cbv zeta. unfold gen_cmp_src_mean, gen_cmp_ref_mean, gen_cmp_pcc_num, gen_cmp_pcc_den_a, gen_cmp_pcc_den_b, gen_cmp_rmse_sq, gen_cmp_rrmse.
+  cbv zeta. unfold gen_cmp_pcc_num, gen_cmp_pcc_den_a, gen_cmp_pcc_den_b, gen_cmp_rmse_sq, gen_cmp_rrmse_den.
   repeat split; try reflexivity; unfold Qdiv; ring.
 Qed.
 
@@ -82,21 +90,23 @@ Theorem kernel_arithmetic_tied (S : sums) (m c : Q) :
   let N := sN S in let X := sX S in let Y := sY S in let XY := sXY S in let XX := sXX S in let YY := sYY S in
   translation_failed = false /\
   gen_go_num N X Y XY XX YY m c == go_num S /\ gen_go_den N X Y XY XX YY m c == go_den S /\
-  (gen_go_offset_n N X Y XY XX YY m c == sY S - m * sX S /\ gen_go_offset_d N X Y XY XX YY m c == sN S /\ gen_go_offset_where = "mask"%string) /\
-  (gen_go_regain_n N X Y XY XX YY m c == sY S - sN S * c /\ gen_go_regain_d N X Y XY XX YY m c == sX S /\
-   gen_go_regain_where = "r2_mask"%string /\ gen_fill_mask = "~r2_mask & mask"%string /\
-   gen_keep_atoms = ["mask"; "param_ra.array[0] > 0"; "param_ra.array[2] > self._r2_inpaint_thresh"]%string) /\
+  (gen_go_offset_n N X Y XY XX YY m c == sY S - m * sX S /\ gen_go_offset_d N X Y XY XX YY m c == sN S) /\
+  (gen_go_regain_n N X Y XY XX YY m c == sY S - sN S * c /\ gen_go_regain_d N X Y XY XX YY m c == sX S) /\
   gen_ss_tot N X Y XY XX YY m c == tss_n S /\ gen_ss_res_go N X Y XY XX YY m c == rss_go S m c /\ gen_ss_res_g N X Y XY XX YY m c == rss_g S m /\
   (gen_g_gain_n N X Y XY XX YY m c == sY S /\ gen_g_gain_d N X Y XY XX YY m c == sX S).
 Proof.
   cbv zeta. split; [exact tie_translated|]. split; [apply tie_go_num|]. split; [apply tie_go_den|]. split; [apply tie_go_offset|].
   split; [apply tie_go_regain|]. split; [apply tie_ss_tot|]. split; [apply tie_ss_res_go|]. split; [apply tie_ss_res_g|apply tie_g_gain].
 Qed.
-Theorem r2_shape_tied (S : sums) (m c num den res tot d : Q) :
-  (gen_go_gain_n num den res tot == num /\ gen_go_gain_d num den res tot == den /\ gen_go_gain_where = "mask"%string) /\
-  (gen_ss_res_scale (sN S) (sX S) (sY S) (sXY S) (sXX S) (sYY S) m c == sN S /\ gen_r2_n res res res tot == res /\ gen_r2_d res res res tot == tot /\
-   gen_r2_final d == 1 - d).
-Proof. split; [apply tie_go_gain_div|apply tie_r2]. Qed.
+Theorem r2_shape_tied (S : sums) (m c d : Q) (r2gt mpos joint : bool) :
+  (gen_ss_res_scale (sN S) (sX S) (sY S) (sXY S) (sXX S) (sYY S) m c == sN S /\ gen_r2_final d == 1 - d) /\
+  (gen_go_gain_where r2gt mpos joint = joint /\ gen_go_offset_where r2gt mpos joint = joint /\ gen_g_gain_where r2gt mpos joint = joint /\
+   gen_r2_where r2gt mpos joint = joint /\ gen_go_remask r2gt mpos joint = joint /\
+   gen_go_keep r2gt mpos joint = (joint && (r2gt && mpos)) /\
+   gen_go_regain_where r2gt mpos joint = (joint && negb (r2gt && mpos))) /\
+  (gen_go_guards_ok = true /\ gen_go_zeroing_ok = true /\ gen_g_offset_zero_ok = true /\ gen_g_zeroing_ok = true /\ gen_r2_roles_ok = true /\
+   gen_gbo_order_ok = true /\ gen_box_filters_ok = true).
+Proof. split; [apply tie_r2|]. split; [apply tie_guards|apply tie_structure]. Qed.
 
 (* compare.get_block_sums: per-pixel terms of the seven block sums (Stats.Compare.block_sums), joint mask, accumulation over blocks *)
 Theorem compare_block_sums_tied (b : list px) :
